@@ -1,9 +1,11 @@
 import MetapypeModel.Model.Import
 import MetapypeModel.Props.C20
+import MetapypeModel.Lemmas.RoundTripNode
 /-
   C08 — XML import mirrors the document; import-export-import is stable.
   The model starts from the infoset lxml hands over (Model/Import.lean); the theorems are for every
-  infoset, every text and all four clean/collapse combinations.
+  infoset, every text and all four clean/collapse combinations.  The last section composes the whole chain
+  export → XML grammar → namespace processing (Model/NsResolve.lean, a model of lxml validated against lxml) → import.
 -/
 namespace Metapype
 
@@ -208,5 +210,22 @@ theorem C08_format_bound (name : String) (uri target : List Char) (ns : Dict)
 /-- non-vacuity / instances of the Clark-name split, incl. a URI that itself contains `}` -/
 example : splitClark "{urn:a}b".toList = some ("urn:a".toList, "b".toList) ∧ splitClark "plain".toList = none ∧
           splitClark "{u}x}y".toList = some ("u}x".toList, "y".toList) := by decide
+
+/-! ### export, parse, import: the same tree again -/
+
+/-- **Exporting a tree and importing the document again gives the same tree**: same names, prefixes, attributes and extras,
+    the same namespace bindings on every node, children in order, content and tail up to surrounding white space.
+    `TreeHyp` (Lemmas/RoundTripNode.lean) is syntactic: names without colon, extras keys of the form `prefix:local` with the
+    prefix bound on the node (or `xml`), namespace maps with unique keys that include the parent's bindings, distinct
+    prefixes bound to distinct namespace names, none of them the XML namespace name.
+    The chain is: `toXmlG` (the exporter, char-exact model) — `Den` (XML grammar) — `resolveX` (lxml's namespace
+    processing) — `processElement` (the importer, raw mode). -/
+theorem C08_export_import (t : Tree) (hl : Legal t none) (hroot : t.tail = none) (h : TreeHyp none t) :
+    ∃ x, DocDen (toXmlG t none 0) x ∧
+      ∃ t', processElement false false [] (resolveX [] x []) [] = some t' ∧ RT t' t ∧ t'.tail = none :=
+  ⟨xElemG t none 0, C07_general_wellformed t hl hroot, export_import t h⟩
+
+-- (an instance of the chain is evaluated by the driver op `exportimport` on every tree of the C07 check and compared with
+-- the real `from_xml(to_xml(tree), clean=False)`)
 
 end Metapype
